@@ -567,8 +567,8 @@ def r_hex_sink(cx, fx):
     # the bytes are turned into text by the Latin-1 decoder (the property names the encoding)
     dec = []
     for fname, b in fx.bodies.items():
-        if fx.is_derive(fname) or not any(x.get("k") == "Call" and (x.get("def") or "").endswith("from_str_radix") for x, _ in F.walk(b["hir"])):
-            continue
+        if fx.is_derive(fname) or "tests" in fname:
+            continue      # (every decoder call of the crate: a helper may do the decoding)
         for x, par in F.walk(b["hir"]):
             if x.get("k") == "MethodCall" and x.get("name") == "decode" and "encoding" in (x.get("def") or ""):
                 dec.append((fname, F.const_of(F.strip(x["recv"])) or repr(F.strip(x["recv"]).get("k")), F.file_line(F.site(x))))
